@@ -3,7 +3,7 @@ CONSTANTS
   Focus = {1, 2, 3, 4, 5, 6, 7, 8, 9, 10}
   MaxSteps = 3
   Kinds2 = {"set", "subset", "refill", "same"}
-  MaxV = 8
+  MaxV = 10
   MaxInit = 6
   FreeAll = TRUE
   Emit = TRUE
